@@ -19,6 +19,8 @@ import (
 	"os"
 	"sort"
 	"strings"
+	"sync"
+	"sync/atomic"
 	"testing"
 
 	"github.com/relab/hotstuff"
@@ -34,26 +36,26 @@ import (
 
 type c11Count struct {
 	inner crypto.Base
-	calls int
+	calls atomic.Int64
 }
 
 func (c *c11Count) Sign(m []byte) (hotstuff.QuorumSignature, error) {
-	c.calls++
+	c.calls.Add(1)
 	return c.inner.Sign(m)
 }
 
 func (c *c11Count) Combine(s ...hotstuff.QuorumSignature) (hotstuff.QuorumSignature, error) {
-	c.calls++
+	c.calls.Add(1)
 	return c.inner.Combine(s...)
 }
 
 func (c *c11Count) Verify(s hotstuff.QuorumSignature, m []byte) error {
-	c.calls++
+	c.calls.Add(1)
 	return c.inner.Verify(s, m)
 }
 
 func (c *c11Count) BatchVerify(s hotstuff.QuorumSignature, b map[hotstuff.ID][]byte) error {
-	c.calls++
+	c.calls.Add(1)
 	return c.inner.BatchVerify(s, b)
 }
 
@@ -180,15 +182,18 @@ func (s *c11Sig) clone(how string) *c11Sig {
 type c11World struct {
 	t     *testing.T
 	name  string
-	tag   string        // "" = replicas 1..4; "big" = replica ids that agree in their low bits
+	tag   string // "" = replicas 1..4; "big" = replica ids that agree in their low bits
 	n     int
 	ids   []hotstuff.ID // the replicas; ids[0] is the replica under test
 	idx   map[hotstuff.ID]int
 	keys  []hotstuff.PrivateKey
 	bases []crypto.Base
 	infos []*hotstuff.ReplicaInfo
-	plain *Authority // replica 1 without cache
-	cbase *c11Count  // scheme instance below replica 1's cache
+	cfgs  []*core.RuntimeConfig // every key holder's own configuration, and the cached instance's scheme configuration
+	later []hotstuff.ID         // key holders that are not (yet) members: see grow
+	live  *Authority            // the cached authority of the running sequence (its configuration grows too)
+	plain *Authority            // replica 1 without cache
+	cbase *c11Count             // scheme instance below replica 1's cache
 	atoms map[string]*c11Sig
 	chain *blockchain.Blockchain // holds genesis and [block]; shared by both instances
 	block *hotstuff.Block        // a view-1 block, the subject of "qc" operations
@@ -217,9 +222,11 @@ func c11Key(t *testing.T, name string) hotstuff.PrivateKey {
 	}
 }
 
-func c11NewWorld(t *testing.T, name, tag string, ids []hotstuff.ID) *c11World {
+func c11NewWorld(t *testing.T, name, tag string, members []hotstuff.ID, later ...hotstuff.ID) *c11World {
+	ids := append(append([]hotstuff.ID(nil), members...), later...) // all key holders
 	n := len(ids)
-	w := &c11World{t: t, name: name, tag: tag, n: n, ids: ids, idx: map[hotstuff.ID]int{}, atoms: map[string]*c11Sig{}}
+	w := &c11World{t: t, name: name, tag: tag, n: len(members), ids: append([]hotstuff.ID(nil), members...), later: later,
+		idx: map[hotstuff.ID]int{}, atoms: map[string]*c11Sig{}}
 	cfgs := make([]*core.RuntimeConfig, n)
 	for i := 0; i < n; i++ {
 		w.idx[ids[i]] = i
@@ -231,9 +238,10 @@ func c11NewWorld(t *testing.T, name, tag string, ids []hotstuff.ID) *c11World {
 		}
 		w.bases = append(w.bases, b)
 	}
-	for i := 0; i < n; i++ {
+	for i := 0; i < len(members); i++ {
 		w.infos = append(w.infos, &hotstuff.ReplicaInfo{ID: ids[i], PubKey: w.keys[i].Public(), Metadata: cfgs[i].ConnectionMetadata()})
 	}
+	w.cfgs = cfgs
 	for _, c := range cfgs {
 		w.addReplicas(c)
 	}
@@ -250,8 +258,28 @@ func c11NewWorld(t *testing.T, name, tag string, ids []hotstuff.ID) *c11World {
 		t.Fatal(err)
 	}
 	w.addReplicas(ccfg)
+	w.cfgs = append(w.cfgs, ccfg)
 	w.cbase = &c11Count{inner: cb}
 	return w
+}
+
+// grow makes the first not-yet-member key holder a replica, in every configuration that
+// exists: RuntimeConfig.AddReplica after the authorities (and the cache) were created.
+func (w *c11World) grow() hotstuff.ID {
+	id := w.later[0]
+	w.later = w.later[1:]
+	i := w.idx[id]
+	ri := &hotstuff.ReplicaInfo{ID: id, PubKey: w.keys[i].Public(), Metadata: w.cfgs[i].ConnectionMetadata()}
+	w.infos = append(w.infos, ri)
+	for _, c := range w.cfgs {
+		c.AddReplica(ri)
+	}
+	if w.live != nil {
+		w.live.config.AddReplica(ri)
+	}
+	w.ids = append(w.ids, id)
+	w.n++
+	return id
 }
 
 func (w *c11World) addReplicas(c *core.RuntimeConfig) {
@@ -270,6 +298,7 @@ func (w *c11World) newCached(capacity int) (*Authority, *Cache) {
 	if !ok {
 		w.t.Fatal("c11: WithCache did not wrap the scheme in a Cache")
 	}
+	w.live = a
 	return a, c
 }
 
@@ -452,13 +481,14 @@ func c11Corrupt(s *c11Sig) *c11Sig {
 // ---------------------------------------------------------------- operations
 
 type c11Op struct {
-	op    string // sign verify batch combine tc aggqc
-	msg   []byte
-	sig   *c11Sig
-	batch map[hotstuff.ID][]byte
-	sigs  []*c11Sig
-	view  hotstuff.View
-	alter string // what was altered w.r.t. an earlier operation ("" = fresh, "same" = identical replay)
+	op     string // sign verify batch combine tc aggqc
+	msg    []byte
+	sig    *c11Sig
+	batch  map[hotstuff.ID][]byte
+	sigs   []*c11Sig
+	view   hotstuff.View
+	msgBuf *[]byte // pooled buffer behind msg (private copies only)
+	alter  string  // what was altered w.r.t. an earlier operation ("" = fresh, "same" = identical replay)
 }
 
 type c11Res struct {
@@ -501,11 +531,79 @@ func (o *c11Op) effBatch() map[hotstuff.ID][]byte {
 	return b
 }
 
+// private returns a deep copy of the operation's byte strings: the buffers the "caller" hands to
+// the authority, which it overwrites as soon as the call returns (c11Scribble).
+// c11MsgBufs: callers typically reuse one buffer for consecutive messages.
+var c11MsgBufs = sync.Pool{New: func() any { b := make([]byte, 0, 256); return &b }}
+
+func (o *c11Op) private() *c11Op {
+	n := *o
+	if o.msg != nil {
+		buf := c11MsgBufs.Get().(*[]byte)
+		n.msg = append((*buf)[:0], o.msg...)
+		n.msgBuf = buf
+	}
+	if o.batch != nil {
+		n.batch = map[hotstuff.ID][]byte{}
+		for id, m := range o.batch {
+			n.batch[id] = append([]byte(nil), m...)
+		}
+	}
+	if o.sig != nil {
+		n.sig = o.sig.clone(o.sig.how)
+	}
+	n.sigs = nil
+	for _, s := range o.sigs {
+		n.sigs = append(n.sigs, s.clone(s.how))
+	}
+	return &n
+}
+
+func c11Scribble(o *c11Op, objs ...hotstuff.QuorumSignature) {
+	fill := func(b []byte) {
+		for i := range b {
+			b[i] ^= 0xa5
+		}
+	}
+	fill(o.msg)
+	if o.msgBuf != nil {
+		c11MsgBufs.Put(o.msgBuf)
+	}
+	for _, m := range o.batch {
+		fill(m)
+	}
+	if o.sig != nil {
+		for _, p := range o.sig.parts {
+			fill(p)
+		}
+	}
+	for _, s := range o.sigs {
+		for _, p := range s.parts {
+			fill(p)
+		}
+	}
+	for _, so := range objs { // signatures returned to the caller are the caller's too
+		switch ms := so.(type) {
+		case crypto.Multi[*crypto.ECDSASignature]:
+			for _, x := range ms {
+				fill(x.ToBytes())
+			}
+		case crypto.Multi[*crypto.EDDSASignature]:
+			for _, x := range ms {
+				fill(x.ToBytes())
+			}
+		}
+	}
+}
+
 func c11Run(a *Authority, o *c11Op) (res c11Res) {
+	o = o.private()
+	var returned []hotstuff.QuorumSignature
 	defer func() {
 		if r := recover(); r != nil {
 			res = c11Res{verdict: 2}
 		}
+		c11Scribble(o, returned...)
 	}()
 	verdict := func(err error) c11Res {
 		if err != nil {
@@ -519,6 +617,7 @@ func c11Run(a *Authority, o *c11Op) (res c11Res) {
 		if err != nil {
 			return c11Res{verdict: 1}
 		}
+		returned = append(returned, s)
 		return c11Res{sig: c11FromGo(s, fmt.Sprintf("Sign(%x) on the instance under test", o.msg))}
 	case "verify":
 		so, _ := o.sig.obj()
@@ -535,7 +634,8 @@ func c11Run(a *Authority, o *c11Op) (res c11Res) {
 		if err != nil {
 			return c11Res{verdict: 1}
 		}
-		return c11Res{sig: c11FromGo(s, "Combine on the instance under test")}
+		res = c11Res{sig: c11FromGo(s, "Combine on the instance under test")}
+		return res // the combined signature shares its parts with the inputs, which are scribbled on
 	case "tc":
 		so, _ := o.sig.obj()
 		return verdict(a.VerifyTimeoutCert(hotstuff.NewTimeoutCert(so, o.view)))
@@ -713,9 +813,9 @@ func (q *c11Seq) gbatch(b map[hotstuff.ID][]byte) string {
 func (q *c11Seq) do(o *c11Op) (plain, cached c11Res) {
 	w, v := q.w, q.v
 	plain = c11Run(w.plain, o)
-	before := w.cbase.calls
+	before := w.cbase.calls.Load()
 	cached = c11Run(q.cached, o)
-	called := w.cbase.calls > before
+	called := w.cbase.calls.Load() > before
 	n := len(q.cache.entries)
 	q.descs = append(q.descs, fmt.Sprintf("%s -> cached:%s uncached:%s", o.desc(), c11Verdict[cached.verdict], c11Verdict[plain.verdict]))
 	q.shapes = append(q.shapes, o.shape())
@@ -926,7 +1026,7 @@ func (w *c11World) exhaustive(v *verifOut, length int, caps []int) {
 func (w *c11World) randSubset(v *verifOut, min int) []hotstuff.ID {
 	for {
 		var ids []hotstuff.ID
-		for _, id := range w.ids {
+		for _, id := range append(append([]hotstuff.ID(nil), w.ids...), w.later...) {
 			if v.rng.Intn(2) == 0 {
 				ids = append(ids, id)
 			}
@@ -1018,6 +1118,9 @@ func (w *c11World) maxBit() int {
 func (w *c11World) someID(v *verifOut, near hotstuff.ID) hotstuff.ID {
 	switch v.rng.Intn(6) {
 	case 0:
+		if w.name != crypto.NameBLS12 && v.rng.Intn(4) == 0 {
+			return 0 // no replica has id 0; a bitfield cannot even name it
+		}
 		return hotstuff.ID(5 + v.rng.Intn(3))
 	case 1, 2:
 		return c11Twin(v, near, w.maxBit())
@@ -1452,6 +1555,271 @@ func (w *c11World) boundary(v *verifOut) {
 	}
 }
 
+// grow (as a step of a sequence): the membership gains a replica while the cache lives.
+func (q *c11Seq) grow() hotstuff.ID {
+	id := q.w.grow()
+	q.descs = append(q.descs, fmt.Sprintf("AddReplica(%d) on every configuration (membership now %v)", id, q.w.ids))
+	q.shapes = append(q.shapes, fmt.Sprintf("grow:%d", id))
+	q.v.Count(q.w.name + ".grow")
+	return id
+}
+
+// growth: fresh worlds in which one or two key holders are not members at first.  Signatures that
+// involve them are rejected (unknown replica), the membership grows, the very same requests are
+// repeated (now accepted by the uncached instance), repeated again (answered from memory), and
+// what was remembered before the growth is asked again.
+func c11Growth(t *testing.T, v *verifOut, name string, worlds int) {
+	for i := 0; i < worlds; i++ {
+		later := []hotstuff.ID{5, 6}
+		switch i % 4 {
+		case 1:
+			later = []hotstuff.ID{1 + 1<<15, 7} // agrees with replica 1 in its low 15 bits
+		case 2:
+			later = []hotstuff.ID{9}
+		case 3:
+			later = []hotstuff.ID{2 + 1<<8, 2 + 1<<16}
+		}
+		w := c11NewWorld(t, name, "grow", []hotstuff.ID{1, 2, 3, 4}, later...)
+		c11Block = w.block
+		capacity := []int{1, 2, 3, 8}[v.rng.Intn(4)]
+		q := c11NewSeq(w, v, "grw", capacity)
+		p := later[0]
+		m0, view := []byte("ab"), hotstuff.View(5)
+		bb := w.block.ToBytes()
+		bp := map[hotstuff.ID][]byte{1: []byte("ab"), p: []byte("c")}
+		tb, tids := map[hotstuff.ID][]byte{}, map[hotstuff.ID][]byte{}
+		for _, id := range []hotstuff.ID{1, 2, 3, p} {
+			tb[id] = c11TimeoutBytes(id, view)
+			tids[id] = nil
+		}
+		fixed := []*c11Op{
+			{op: "verify", sig: w.multi(m0, 1, 2, 3), msg: m0},
+			{op: "verify", sig: w.atom(p, m0), msg: m0, alter: "signer-not-yet-member"},
+			{op: "verify", sig: w.multi(m0, 1, p), msg: m0, alter: "signer-not-yet-member"},
+			{op: "batch", sig: w.batchSig(bp), batch: bp, alter: "signer-not-yet-member"},
+			{op: "tc", sig: w.multi(view.ToBytes(), 1, 2, 3, p), view: view, alter: "signer-not-yet-member"},
+			{op: "qc", sig: w.multi(bb, 2, 3, 4, p), alter: "signer-not-yet-member"},
+			{op: "aggqc", sig: w.batchSig(tb), batch: tids, view: view, alter: "signer-not-yet-member"},
+			{op: "verify", sig: c11Relabel(w.atom(1, m0), []hotstuff.ID{p}), msg: m0, alter: "signer-labels"},
+			{op: "tc", sig: w.multi(view.ToBytes(), 1, 2, 3), view: view},
+		}
+		pre := 3 + v.rng.Intn(4)
+		for j := 0; j < pre; j++ { // some history first
+			q.do(w.freshOp(v))
+		}
+		for _, o := range fixed {
+			q.do(o)
+		}
+		if v.rng.Intn(2) == 0 { // asked twice while unknown
+			for _, o := range fixed[1:4] {
+				c := *o
+				q.do(&c)
+			}
+		}
+		q.grow()
+		for round := 0; round < 2; round++ {
+			for _, o := range fixed {
+				c := *o
+				if c.alter == "signer-not-yet-member" {
+					c.alter = "signer-now-member"
+				} else if c.alter == "" {
+					c.alter = "same"
+				}
+				q.do(&c)
+			}
+		}
+		for j := 0; j < 4; j++ {
+			if o := w.alterOp(v, q.hist[v.rng.Intn(len(q.hist))]); o != nil {
+				q.do(o)
+			}
+			q.do(w.freshOp(v))
+		}
+		if len(w.later) > 0 { // a second growth step, then everything remembered so far again
+			q.grow()
+			for j := 0; j < 6; j++ {
+				c := *q.hist[v.rng.Intn(len(q.hist))]
+				if c.alter == "" {
+					c.alter = "same"
+				}
+				q.do(&c)
+			}
+		}
+		q.finish()
+	}
+}
+
+// paths: one key reached through different entry points (Verify / VerifyTimeoutCert,
+// Verify / VerifyQuorumCert, BatchVerify / VerifyAggregateQC) in every order, with fillers that
+// evict and a failing twin; all sequences of the given length.
+func (w *c11World) paths(v *verifOut, length int, caps []int) {
+	a, b, c := w.ids[0], w.ids[1], w.ids[2]
+	view := hotstuff.View(5)
+	bb := w.block.ToBytes()
+	sv, sq := w.multi(view.ToBytes(), a, b, c), w.multi(bb, a, b, c)
+	b3 := map[hotstuff.ID][]byte{a: []byte("ab"), b: []byte("c"), c: []byte("a")}
+	tb, tids := map[hotstuff.ID][]byte{}, map[hotstuff.ID][]byte{}
+	for _, id := range []hotstuff.ID{a, b, c} {
+		tb[id] = c11TimeoutBytes(id, 7)
+		tids[id] = nil
+	}
+	sg := w.batchSig(tb)
+	alpha := []*c11Op{
+		{op: "verify", sig: sv, msg: view.ToBytes()},
+		{op: "tc", sig: sv, view: view},
+		{op: "verify", sig: sq, msg: bb},
+		{op: "qc", sig: sq},
+		{op: "batch", sig: sg, batch: tb},
+		{op: "aggqc", sig: sg, batch: tids, view: 7},
+		{op: "batch", sig: w.batchSig(b3), batch: b3},
+		{op: "verify", sig: w.atom(b, []byte("p")), msg: []byte("p")},
+		{op: "tc", sig: sv, view: view + 1, alter: "view"},
+		{op: "aggqc", sig: sg, batch: tids, view: 8, alter: "view"},
+	}
+	w.allSequences(v, "pth", alpha, length, caps)
+}
+
+// lru: every sequence over three remembered keys and a rejected one, capacities 1 and 2:
+// which entry is evicted, re-insertion after eviction, refresh on hit.
+func (w *c11World) lru(v *verifOut, length int, caps []int) {
+	b := w.ids[1]
+	var alpha []*c11Op
+	for _, m := range []string{"p", "q", "r"} {
+		alpha = append(alpha, &c11Op{op: "verify", sig: w.atom(b, []byte(m)), msg: []byte(m)})
+	}
+	w.allSequences(v, "lru", alpha, length, caps)
+	alpha = append(alpha, &c11Op{op: "verify", sig: w.atom(b, []byte("p")), msg: []byte("x"), alter: "message"})
+	w.allSequences(v, "lru", alpha, length-2, caps)
+}
+
+func (w *c11World) allSequences(v *verifOut, stream string, alpha []*c11Op, length int, caps []int) {
+	idx := make([]int, length)
+	for {
+		for _, c := range caps {
+			q := c11NewSeq(w, v, stream, c)
+			for _, i := range idx {
+				q.do(alpha[i])
+			}
+			q.finish()
+		}
+		k := length - 1
+		for k >= 0 {
+			idx[k]++
+			if idx[k] < len(alpha) {
+				break
+			}
+			idx[k] = 0
+			k--
+		}
+		if k < 0 {
+			return
+		}
+	}
+}
+
+// concurrent: several goroutines verify the same and colliding entries (identical requests,
+// relabelled / high-bit twins, other messages) through one cached authority at the same time.
+// The interleaving is not reproducible, so there are no kernel cases: the oracle is the property
+// itself (every verdict equals the uncached one, computed beforehand) plus the cache's bounds.
+func (w *c11World) concurrent(v *verifOut, rounds, workers, opsPerWorker int) {
+	a, b, c := w.ids[0], w.ids[1], w.ids[2]
+	m0 := []byte("ab")
+	s3 := w.multi(m0, a, b, c)
+	b3 := map[hotstuff.ID][]byte{a: []byte("ab"), b: []byte("c"), c: []byte("a")}
+	sb := w.batchSig(b3)
+	bx := c11CloneBatch(b3)
+	bx[w.ids[3]] = []byte("bc")
+	pool := []*c11Op{
+		{op: "verify", sig: s3, msg: m0},
+		{op: "verify", sig: s3, msg: []byte("a"), alter: "message"},
+		{op: "verify", sig: c11Relabel(s3, []hotstuff.ID{a, b, c + 1<<15}), msg: m0, alter: "signer-labels-high-bits"},
+		{op: "verify", sig: w.atom(b, m0), msg: m0},
+		{op: "verify", sig: c11Relabel(w.atom(b, m0), []hotstuff.ID{c}), msg: m0, alter: "signer-labels"},
+		{op: "batch", sig: sb, batch: b3},
+		{op: "batch", sig: sb, batch: bx, alter: "batch-extra-entry"},
+		{op: "tc", sig: w.multi(hotstuff.View(5).ToBytes(), a, b, c), view: 5},
+		{op: "tc", sig: w.multi(hotstuff.View(5).ToBytes(), a, b, c), view: 6, alter: "view"},
+		{op: "verify", sig: w.atom(b, []byte("p")), msg: []byte("p")},
+		{op: "verify", sig: w.atom(b, []byte("q")), msg: []byte("q")},
+		{op: "sign", msg: m0},
+	}
+	if w.name != crypto.NameBLS12 {
+		pool = append(pool, &c11Op{op: "verify", sig: c11Repeat(s3, 2, 3), msg: m0, alter: "signer-repeated"},
+			&c11Op{op: "verify", sig: c11SwapLabels(s3), msg: m0, alter: "signer-labels"})
+	}
+	want := make([]int, len(pool))
+	for i, o := range pool {
+		want[i] = c11Run(w.plain, o).verdict
+	}
+	for r := 0; r < rounds; r++ {
+		capacity := []int{1, 2, 3, 8}[r%4]
+		cached, cache := w.newCached(capacity)
+		plans := make([][]int, workers)
+		for g := range plans {
+			for j := 0; j < opsPerWorker; j++ {
+				if v.rng.Intn(3) == 0 {
+					plans[g] = append(plans[g], v.rng.Intn(len(pool)))
+				} else {
+					plans[g] = append(plans[g], v.rng.Intn(3)) // mostly the same entry and its colliding twins
+				}
+			}
+		}
+		type miss struct{ worker, step, op, got int }
+		var mu sync.Mutex
+		var misses []miss
+		var wg sync.WaitGroup
+		for g := range plans {
+			wg.Add(1)
+			go func(g int) {
+				defer wg.Done()
+				for j, i := range plans[g] {
+					if got := c11Run(cached, pool[i]).verdict; got != want[i] {
+						mu.Lock()
+						misses = append(misses, miss{g, j, i, got})
+						mu.Unlock()
+					}
+				}
+			}(g)
+		}
+		wg.Wait()
+		v.Seen(fmt.Sprintf("conc|%s|%d|%d|%v", w.name, capacity, r, plans), true, nil)
+		v.CountN(w.name+".concurrent-operations", workers*opsPerWorker)
+		input := func(extra any) any {
+			return map[string]any{"scheme": w.name, "capacity": capacity, "workers": workers, "plans (indices into pool, per goroutine)": plans,
+				"pool": func() []string {
+					var d []string
+					for _, o := range pool {
+						d = append(d, o.desc())
+					}
+					return d
+				}(), "detail": extra}
+		}
+		if len(misses) == 0 {
+			v.Oracle(true, "", "", nil)
+		}
+		for _, m := range misses {
+			o := pool[m.op]
+			al := o.alter
+			if al == "" {
+				al = "fresh"
+			}
+			v.Oracle(false, fmt.Sprintf("cache.concurrent.%s:%s:cached-%s-uncached-%s", o.op, al, c11Verdict[m.got], c11Verdict[want[m.op]]),
+				fmt.Sprintf("%s: under %d concurrent callers (capacity %d) the cached verdict is %s, the uncached %s, for %s", w.name, workers, capacity, c11Verdict[m.got], c11Verdict[want[m.op]], o.desc()),
+				input(map[string]int{"worker": m.worker, "step": m.step}))
+		}
+		n := len(cache.entries)
+		if n == cache.accessOrder.Len() {
+			v.Oracle(true, "", "", nil)
+		} else {
+			v.Oracle(false, "cache.lru:map-and-list-differ", fmt.Sprintf("after concurrent use entries has %d keys, accessOrder %d", n, cache.accessOrder.Len()), input(nil))
+		}
+		if n <= capacity {
+			v.Oracle(true, "", "", nil)
+		} else {
+			v.Oracle(false, "cache.lru:capacity-exceeded", fmt.Sprintf("after concurrent use %d entries in a cache of capacity %d", n, capacity), input(nil))
+		}
+	}
+}
+
 // hibits: a verification with the genuine labels (remembered), then the same signature with one
 // or all signer labels replaced by ids that differ only in high bits (id + m*2^k for every k in
 // 8..31, resp. 8..20 for BLS bitfields), then the genuine one again.  Single signatures,
@@ -1543,10 +1911,12 @@ func TestVerifC11(t *testing.T) {
 		c11Block = w.block
 		w.boundary(v)
 		w.hibits(v)
+		w.concurrent(v, v.Pick(4, 40), 6, v.Pick(12, 40))
 		switch name {
 		case crypto.NameBLS12:
 			if !search {
 				w.exhaustive(v, 2, []int{1, 2})
+				w.paths(v, 2, []int{1, 2})
 			}
 			w.random(v, v.Pick(60, 1200))
 		case crypto.NameEDDSA:
@@ -1557,6 +1927,8 @@ func TestVerifC11(t *testing.T) {
 				} else {
 					w.exhaustive(v, 3, []int{2})
 				}
+				w.paths(v, 3, []int{1, 2})
+				w.lru(v, v.Pick(5, 7), []int{1, 2})
 			}
 			w.random(v, v.Pick(500, 6000))
 		default:
@@ -1564,6 +1936,9 @@ func TestVerifC11(t *testing.T) {
 				w.exhaustive(v, 2, []int{1, 2, 3})
 				if v.Thorough() {
 					w.exhaustive(v, 3, []int{1, 2})
+					w.paths(v, 3, []int{1, 2})
+				} else {
+					w.paths(v, 3, []int{2})
 				}
 			}
 			w.random(v, v.Pick(400, 5000))
@@ -1580,5 +1955,9 @@ func TestVerifC11(t *testing.T) {
 		w.hibits(v)
 		w.random(v, v.Pick(map[string]int{crypto.NameBLS12: 15}[name]+25, 600))
 	}
+	// a membership that grows after the authorities and the cache were created
+	c11Growth(t, v, crypto.NameEDDSA, v.Pick(16, 400))
+	c11Growth(t, v, crypto.NameECDSA, v.Pick(10, 300))
+	c11Growth(t, v, crypto.NameBLS12, v.Pick(3, 40))
 	v.Close("operation sequences (sign/verify/batch-verify/combine/VerifyTimeoutCert/VerifyAggregateQC) on a cached and an uncached cert.Authority of replica 1 over 4 replicas, three schemes, capacities 1..8; exhaustive over an alphabet of a base verification and every single alteration, random replays, boundary sequences; non-trivial = the sequence contains a cache hit or an altered replay")
 }
